@@ -5,6 +5,7 @@ import (
 	"fmt"
 	"math/rand"
 	"runtime"
+	"runtime/debug"
 	"strings"
 	"sync"
 	"sync/atomic"
@@ -136,6 +137,7 @@ func runC32Round(r *vk.Run, rd c32round) (sig string, hang bool) {
 			text += "!fail"
 		}
 		c := c32call{Caller: caller, Text: text, Late: late}
+		defer c32Recover(r, rd)
 		var err error
 		if (caller+k)%2 == 0 {
 			c.Method = "Message"
@@ -345,6 +347,8 @@ func c32ResponseModes(r *vk.Run) {
 			}
 		}
 	}
+	// Recombinations of the parts of the documented suffixes.
+	c32Recombined(r, check)
 	// Random part.
 	alphabet := "abcyesno/()?:[] fingerprtPlTy',\n"
 	n := r.Pick(20000, 2000000)
@@ -434,8 +438,19 @@ func c32() {
 		}()
 	}
 	wg.Wait()
+	if hangs.Load() < 2 {
+		c32Specials(r)
+	}
 	r.Note("echo_suffixes_frozen", c32EchoSuffixes)
 	r.Assume("'without echo' is read as: the response mode is not ResponseModeEcho (secret or masked); the four OpenSSH yes/no suffixes are frozen in the monitor as the specification")
 	r.Assume("an invocation 'after unregistration' is a prompter entry whose tick (taken inside the prompter) is later than the tick taken after UnregisterPrompter returned; one logical clock")
-	r.Finish("(a) response mode for every single-character edit, case change, missing trailing space and mid-string placement of each of the four echo suffixes under several prefixes, plus seeded random prompts; (b) rounds of 16..64 goroutines calling prompting.Message/Prompt for one registered journaling prompter while another goroutine unregisters it after a random number of served calls, with late callers starting after unregistration returned; distinct = response-mode category x suffix x expected mode, and round shapes (caller bucket, share served, share cancelled, late callers, identifier kind, hold)", 30)
+	r.Finish("(a) response mode for every single-character edit, case change, missing trailing space and mid-string placement of each of the four echo suffixes under several prefixes, every recombination of suffix bodies/sentences with endings ('? ', ': ', '?', ':', ' ', '; ' ...), plus seeded random prompts; (b) rounds of 16..64 goroutines calling prompting.Message/Prompt for one registered journaling prompter while another goroutine unregisters it after a random number of served calls, with late callers starting after unregistration returned; (c) special rounds: the prompter's first 1..3 invocations fail and 4..31 concurrent calls follow; one invocation is held inside the prompter by the harness, 1..24 calls queue behind it and the prompter is unregistered meanwhile; distinct = response-mode category x suffix x expected mode, and round shapes (caller bucket, share served, share cancelled, late callers, identifier kind, hold)", 30)
+}
+
+// c32Recover turns a panic inside a registry call (for instance a send on a
+// closed holder) into a violation instead of losing the whole run.
+func c32Recover(r *vk.Run, round any) {
+	if p := recover(); p != nil {
+		r.Violation(map[string]string{"check": "panic-in-registry-call"}, fmt.Sprintf("a Message/Prompt/UnregisterPrompter call panicked: %v", p), map[string]any{"round": round, "stack": string(debug.Stack())})
+	}
 }
